@@ -22,6 +22,7 @@ RULE = (
     "Circuit object: as built, and after an in-place edit that keeps node and edge counts (one gate retyped), "
     "so that answers cannot depend on what was asked before. Distinct by case digest."
 )
+RULE += ' Added after seeded-change rounds 4-5: loops made of buffers only (1..6 members, with readers) in the core.'
 ASSUMPTIONS = [
     "reference semantics cgv.refsim (consistent valuations by bit-parallel enumeration over all nodes)",
     "the pysat stand-in only runs the library's solve(); route (a) uses no solver at all",
